@@ -44,6 +44,11 @@ func ValidateToken(op TokenOptions, token string) error {
 	if err != nil {
 		return errors.New("Provided token was not issued by this server")
 	}
+	// The server name travels as the macaroon location, which the signature
+	// does not cover, so it is compared here.
+	if mac.Location() != op.ServerName {
+		return errors.New("Provided token was not issued by this server")
+	}
 
 	err = verifyCaveats(caveats, op.UserID)
 	if err != nil {
